@@ -546,3 +546,17 @@ Definition post := [mkb (t "b.com" false) [] [(t "root" false, [t "/y" true])]].
 Definition cfg := (pre ++ mkb (t "a.com," false) [t "c.com" false] [l1; l2; l3] :: post)%list.
 Definition cfg' := (pre ++ mkb (t "a.com," false) [t "c.com" false] [l2; l1; l3] :: post)%list.
 End TextExample.
+
+(* the configuration of C09_text_reorder_continued_value_nonvacuous: a long header value continued with a
+   trailing backslash directly in front of the line break inside the quotes, as the last token of its
+   line; what stands directly below it differs between the two orders *)
+Module ContinuedExample.
+Definition env : list (bytes * bytes) := [].
+Definition t (s : string) (nl : bool) : ltok := (bs s, nl).
+(* header / X-Long "default-src 'self'; \<line break> img-src *"  — the value is the last token of its line *)
+Definition l1 : aline := (t "header" false, [t "/" false; t "X-Long" false; (bs "default-src 'self'; \" ++ [10] ++ bs " img-src *", true)]).
+Definition l2 : aline := (t "gzip" true, []).
+Definition l3 : aline := (t "root" false, [t "/srv" true]).
+Definition cfg := [mkb (t "a.com" false) [] [l1; l2; l3]].
+Definition cfg' := [mkb (t "a.com" false) [] [l1; l3; l2]].
+End ContinuedExample.
